@@ -52,6 +52,7 @@ func runLemmas(id string, prog *Program, specs *SpecSet, opts solveOpts, known *
 		}
 		o := &Obligation{Name: name, Kind: "lemma", NHyps: len(c.hyps), PC: True, Goal: goal, Pos: r.Pos, Clause: lm.C, Expect: "unsat"}
 		c.solve(o, opts)
+		secondChance(c, []*Obligation{o}, opts)
 		r.Result, r.Solver, r.Time = o.Result, o.Solver, o.Time
 		res.time += o.Time
 		for a := range c.assume {
